@@ -318,6 +318,12 @@ func genC05Mask(t *rapid.T) c05Case {
 			c.Witnesses = append(c.Witnesses, "http://example.org/my"+w+".js", "http://example.org/"+w+"/", "http://example.org/q/"+w+"/x", "http://"+w+".example/")
 		}
 	}
+	// regular expressions whose body begins or ends with a slash of its own
+	if chance(t, "regex-with-edge-slashes", 10) {
+		c = c05Case{Rule: pick(t, "res-rule", []string{"/\\.com/ads//", "//banner\\d+\\.gif/", "//ads//", "/example\\.org//", "///x\\.js/", "/\\/ads\\//"})}
+		c.Witnesses = append(c.Witnesses, "http://x.com/ads.js", "http://x.com/ads/", "http://x.com/ads", "http://x.com/banner12.gif", "http://x.com//banner12.gif", "http://x.com/q/banner1.gif",
+			"http://example.org/", "http://example.orgx", "http://example.org", "http://x.com/x.js", "http://x.com//x.js", "http://x.com/a/ads/b", "http://x.com/myads.js")
+	}
 	return c
 }
 
